@@ -1,12 +1,25 @@
 #!/usr/bin/env python3
-"""Print the markdown table of seeded changes (DESIGN.md §8.4) from seeded/*/meta.json and result.json."""
+"""Print the markdown table of seeded changes (DESIGN.md §8.4) from seeded/*/meta.json and result.json.
+
+  tools/seed_table.py            print the table
+  tools/seed_table.py --update   replace the block between the SEED-TABLE markers in DESIGN.md
+"""
 import json
+import sys
 from pathlib import Path
 
 VERIF = Path(__file__).resolve().parents[1]
+BEGIN, END = "<!-- SEED-TABLE:BEGIN -->", "<!-- SEED-TABLE:END -->"
 
 
-def main():
+def outcome(o):
+    if o["exit"] == 1 and o["violations"]:
+        nf = all("no-failing-input-found" in v for v in o["first"]) if o["first"] else False
+        return "obligation-only" if nf else f"{o['violations']} concrete"
+    return "missed"
+
+
+def table():
     rows = []
     for d in sorted((VERIF / "seeded").iterdir()):
         if not (d / "meta.json").exists():
@@ -14,24 +27,32 @@ def main():
         meta = json.loads((d / "meta.json").read_text())
         res = json.loads((d / "result.json").read_text()) if (d / "result.json").exists() else []
         confirmed = any(r.get("confirm", {}).get("confirmed") for r in res)
-        # latest outcome per check
-        latest = {}
+        first, latest = {}, {}
         for r in res:
             for c, o in r.get("checks", {}).items():
+                first.setdefault(c, o)
                 latest[c] = o
-        caught = []
-        for c, o in sorted(latest.items()):
-            if o["exit"] == 1 and o["violations"]:
-                nf = all("no-failing-input-found" in v for v in o["first"]) if o["first"] else False
-                caught.append(f"{c}: {'broken obligation only (no-failing-input-found)' if nf else str(o['violations']) + ' concrete violation(s)'}")
-            else:
-                caught.append(f"{c}: not caught")
-        summ = " ".join(str(meta.get("summary", "")).split())[:230]
-        needs = " ".join(str(meta.get("needs", "")).split())[:160]
-        rows.append(f"| {d.name} | {meta.get('property')} | {summ} — needs: {needs} | {'yes' if confirmed else 'no'} | {'; '.join(caught)} |")
-    print("| Seed | Property | Change — what it needs to manifest | Confirmed | Latest outcome per check run against it |")
-    print("|------|----------|------------------------------------|-----------|------------------------------------------|")
-    print("\n".join(rows))
+        cells = []
+        for c in sorted(latest):
+            a, b = outcome(first[c]), outcome(latest[c])
+            cells.append(f"{c}: {b}" + (f" (first run: {a}; check strengthened since)" if a != b and not b.startswith("missed") and not a.endswith("concrete") else ""))
+        summ = " ".join(str(meta.get("summary", "")).split())[:260]
+        needs = " ".join(str(meta.get("needs", "")).split())[:200]
+        rows.append(f"| {d.name} | {meta.get('property')} | {summ} — *needs:* {needs} | {'yes' if confirmed else 'no'} | {'; '.join(cells) or 'not run yet'} |")
+    head = ("| Seed | Property | Change — what it needs to manifest | Confirmed | Latest outcome of the checks run against it |\n"
+            "|------|----------|------------------------------------|-----------|----------------------------------------------|\n")
+    return head + "\n".join(rows) + "\n"
+
+
+def main():
+    t = table()
+    if "--update" in sys.argv:
+        p = VERIF / "DESIGN.md"
+        s = p.read_text()
+        a, b = s.index(BEGIN) + len(BEGIN), s.index(END)
+        p.write_text(s[:a] + "\n" + t + s[b:])
+    else:
+        print(t)
 
 
 main()
